@@ -355,7 +355,7 @@ from strawberryfields.parameters import par_evaluate  # noqa: E402
 
 PROP = "C11"
 LEVEL = "proof"
-COQ_TARGETS = ["C11/Lin.vo", "C11/LinProofs.vo", "C11/Model.vo", "C11/Proofs.vo"]
+COQ_TARGETS = ["C11/Lin.vo", "C11/LinProofs.vo", "C11/Model.vo", "C11/Proofs.vo", "C11/Merge.vo"]
 COQ_DIRS = ["C11"]
 PROPERTIES_FILE = "Properties/C11.v"
 ALLOWED_AXIOMS = set()
@@ -804,11 +804,12 @@ def rand_hybrid(rng, family=None):
     table = dict(gauss) if family == "gaussian-only" else {**gauss, **NONGAUSS, **{k + "": v for k, v in NONGAUSS.items()}}
     n = rng.randint(1, 9)
     cmds = []
+    dp = 0.25 if rng.random() < 0.25 else 0.0
     for _ in range(n):
         if family != "gaussian-only" and rng.random() < 0.3:
-            cmds.append(rand_cmd(rng, used, NONGAUSS, dagger_prob=0.0))
+            cmds.append(rand_cmd(rng, used, NONGAUSS, dagger_prob=dp))
         else:
-            cmds.append(rand_cmd(rng, used, gauss, dagger_prob=0.0, max_mat=2))
+            cmds.append(rand_cmd(rng, used, gauss, dagger_prob=dp, max_mat=2))
     if family != "gaussian-only" and not any(c[0] in NONGAUSS for c in cmds):
         cmds.insert(rng.randrange(len(cmds) + 1), rand_cmd(rng, used, {"Kgate": NONGAUSS["Kgate"], "Vgate": NONGAUSS["Vgate"]}, dagger_prob=0.0))
     return {"N": N, "cmds": cmds}
@@ -857,6 +858,19 @@ def check_merge_case(ctx, spec, report=True):
                 else:
                     cls = "wrong-block-content"
                 sig = "gaussian_merge:%s:%s" % (fam, cls)
+                nodag = [[n_, p_, ms_, (d_ if n_ in NONGAUSS else False)] for n_, p_, ms_, d_ in dec]
+                if any(c[3] for c in dec if c[0] not in NONGAUSS) and channels_close(hybrid_channel(nodag, used), dst, 1e-6):
+                    sig = "gaussian_merge:dagger-ignored"
+                    cls = "dagger flags of Gaussian gates dropped (inherited from GaussianUnitary.compile)"
+                elif used != list(range(len(used))) and spec.get("_relabelled") is None:
+                    # does the failure disappear under an order-preserving relabelling to 0..k-1?  then it is
+                    # the index-value (set order) defect inherited from GaussianUnitary.compile
+                    mp = {m: i for i, m in enumerate(used)}
+                    s2 = {"N": len(used), "_relabelled": True,
+                          "cmds": [[n_, p_, [mp[m] for m in ms_], d_] for n_, p_, ms_, d_ in spec["cmds"]]}
+                    if check_merge_case(ctx, s2, report=False)[0] is None:
+                        sig = "gaussian_merge:set-order"
+                        cls = "set-order (inherited from GaussianUnitary.compile)"
                 text = ("compiled hybrid circuit is not equivalent to the source (non-Gaussian gates replaced by generic "
                         "stand-ins; channel distance %.3g); class %s" % (channel_dist(src, dst), cls))
     if sig and sig.startswith("gaussian_merge:crash"):
@@ -891,7 +905,7 @@ def fock_differs(spec, cutoff=9):
         with warnings.catch_warnings():
             warnings.simplefilter("ignore")
             comp = prog.compile(compiler="gaussian_merge")
-        pre = [(ops.Coherent(0.2, 0.3 * (i + 1)), [i]) for i in range(len(used))]
+        pre = [(ops.Dgate(0.2, 0.3 * (i + 1)), [i]) for i in range(len(used))]
         kets = []
         for circ in (prog.circuit, comp.circuit):
             p2 = sf.Program(len(used))
@@ -931,8 +945,26 @@ class _Quiet:
         pass
 
 
+def replay_corpus(ctx):
+    import glob
+    import os
+    for path in sorted(glob.glob(os.path.join(coq.VERIF, "corpus", "C11-*.json"))):
+        try:
+            d = json.load(open(path))["data"]
+        except Exception as e:
+            ctx.obligation("corpus:" + os.path.basename(path), False, repr(e))
+            continue
+        if d.get("check") == "pure":
+            res = check_pure(ctx, d["compiler"], d["spec"], "corpus")
+            ctx.case({"corpus": os.path.basename(path), "outcome": res.get("judge") or res["kind"]}, nontrivial=True, bucket="corpus")
+        elif d.get("check") == "merge":
+            sig, _, _ = check_merge_case(ctx, d["spec"])
+            ctx.case({"corpus": os.path.basename(path), "outcome": sig or "ok"}, nontrivial=True, bucket="corpus")
+
+
 def search(ctx):
     rng = ctx.rng
+    replay_corpus(ctx)
     # (A) gaussian_unitary / passive: compiled matrices+registers vs ordered product of source operations
     n_pure = ctx.budget(250, 3000)
     for compiler, table in (("gaussian_unitary", {**GU_PRIMS, **GU_DECOMP}), ("passive", PASSIVE_PRIMS)):
@@ -995,10 +1027,14 @@ def search(ctx):
     # (B) gaussian_merge on hybrid circuits
     n_merge = ctx.budget(300, 3500)
     found = {}
+    vcases = []
     for i in range(n_merge):
         spec = rand_hybrid(rng)
         before = len(ctx.issues)
         sig, text, out = check_merge_case(ctx, spec)
+        if out is not None:
+            dec = spec_of_circuit(compiler_db["gaussian_merge"]().decompose(build_program(spec).circuit))
+            vcases.append((spec, dec, out, sig))
         fam = merge_family(spec)
         ctx.case({"compiler": "gaussian_merge", "spec": spec, "outcome": sig or "ok"}, nontrivial=fam == "hybrid-multimode",
                  bucket="merge-%s-%s" % (fam, (sig or "ok").replace("gaussian_merge:", "")))
@@ -1016,6 +1052,43 @@ def search(ctx):
                     found[sig] = "refuted"
         elif sig and found.get(sig) == "refuted":
             ctx.issues[:] = [x for x in ctx.issues if x.signature != sig]
+    run_validator(ctx, vcases)
+
+
+def run_validator(ctx, vcases):
+    """Translation validation: feed (decomposed source, implementation output) to the proved Coq validator."""
+    def enc(cmds, ids):
+        items = []
+        for n, ps, ms, dg in cmds:
+            if n in NONGAUSS:
+                k = ids.setdefault((n, tuple(round(float(x), 12) for x in ps), bool(dg)), len(ids) + 1)
+            else:
+                k = 0
+            items.append("mkH %d %s" % (k, coq.coq_list(ms, str)))
+        return coq.coq_list(items, lambda t: "(%s)" % t)
+    for s0 in range(0, len(vcases), 1000):
+        chunk = vcases[s0:s0 + 1000]
+        items = []
+        for spec, dec, out, sig in chunk:
+            ids = {}
+            items.append("(%s, %s)" % (enc(dec, ids), enc(out, ids)))
+        text = ("From Coq Require Import List Bool.\nImport ListNotations.\nFrom SFV Require Import C11.Merge.\n"
+                "Definition cases : list (list hcmd * list hcmd) := [\n%s].\n"
+                "Eval vm_compute in map (fun c => check_merge (fst c) (snd c)) cases.\n" % ";\n".join(items))
+        ok, vals, raw = ctx.coq_eval("cases_merge_%d" % (s0 // 1000), text)
+        if not ok:
+            ctx.obligation("validator:gaussian_merge", False, raw)
+            return
+        for (spec, dec, out, sig), v in zip(chunk, vals[0]):
+            ctx.traces += 1
+            used = used_modes_of(spec["cmds"])
+            py = all(wire_projection(dec, w) == wire_projection(out, w) for w in used)
+            if bool(v) != py:
+                ctx.disagreement("corr:merge-validator", "Coq check_merge says %s, harness projection says %s" % (v, py), {"check": "merge", "spec": spec})
+            if not v and sig is None:
+                ctx.counterexample("gaussian_merge:%s:validator-rejects" % merge_family(spec),
+                                   "a non-Gaussian operation changed its place on some wire although the stand-in test passed", {"check": "merge", "spec": spec})
+    ctx.obligation("validator:gaussian_merge", True)
 
 
 def replay(ctx, data):
